@@ -13,7 +13,7 @@ from nmverif.worker import quarantined, wal_text
 VALUE_POOL = ['"9.9.9"', "42", "true", "null", "fresh", "fresh.attr", "fresh 1", "[ ]", "[ u v ]",
               "{ }", "./new.nix", '"a b"', "-7", "u + 1", "!u"]
 MULTILINE_VALUES = ["[\n  u\n  v\n]", "{\n  k = 1;\n  m = 2;\n}", "''\n  text\n''"]
-BAD_VALUES = ["", "   ", "# only a comment", "1 2 ;", "{ a = ", "a b )", "1; 2", "let x = 1;", "[ 1", "\n"]
+BAD_VALUES = ["", "   ", "# only a comment", "1 2 ;", "1 +", "{ a = ", "a b )", "1; 2", "let x = 1;", "[ 1", "\n"]
 MALFORMED_PATHS = ["", ".", "a..b", ".a", "a.", 'a"b"', '"a', 'a."b', '"a\\', "a-b", "1a", "a b", "'a",
                    "a.$", "@", "@@", '"a"b', "a.\"b\"c", "a,b", "a;"]
 
